@@ -10,7 +10,8 @@ Layers (all in `Splipy/Lemmas/C06*.lean`):
 
 * **model** — `Basis.reverse`, `Basis.reparam`, `Obj.reverse`, `Obj.swap`, `Obj.reparamDir`
   (`Model/BasisOps.lean`, `Model/Object.lean`), the calling conventions `checkDirection`,
-  `Obj.reverseTok/swapTok/reparamArgs/reparamDirTok` and `Obj.reverseSpec` (`Model/Reparam.lean`);
+  `Obj.reverseTok/swapTok/reparamArgs/reparamDirTok`, `Obj.reverseSpec`, `Obj.reverseFlipOnly`
+  (`Model/Reparam.lean`);
 * **specification** — `B`, `dB`, `splineVal`, `splineDeriv` (`Spec/BSpline.lean`); the wrapped
   curve sum `C06.wsum` and the tensor-product sum `C06.TP.evalD` (`Lemmas/C06Spec.lean`) are the
   defining sums of (periodic) spline curves / objects, one homogeneous component at a time
@@ -21,8 +22,10 @@ Layers (all in `Splipy/Lemmas/C06*.lean`):
 
 The control-point correspondence that makes `reverse` exact is `j ↦ (nAll-1-j) mod n`
 (`= n-1-j` on an open direction, `= (n+k-j) mod n`, i.e. flip **and roll by `k+1`**, on a periodic
-direction of continuity `k`).  The code (and its model `Obj.reverse`) only flips:
-`C06_reverse_periodic_flip_only_refuted` exhibits a periodic curve on which this is wrong.
+direction of continuity `k`).  The code and its model `Obj.reverse` do exactly that (flip, then
+`np.roll` by `k+1`): `C06_reverse_eq_spec`.  Before the fix 4fe14f6 the code only flipped
+(`Obj.reverseFlipOnly`): `C06_reverse_periodic_flip_only_refuted` exhibits a periodic curve on
+which that shape is wrong.
 -/
 
 open Splipy Splipy.C06
@@ -131,18 +134,20 @@ theorem C06_exPer_valid : C06_exPer.Valid where
 /-- The periodic curve on `C06_exPer` with control points `0, 1` (one component). -/
 def C06_exObj : Obj ℚ := { bases := #[C06_exPer], cps := ⟨[2, 1], #[0, 1]⟩, rational := false }
 
-/-- **"Flip only" is refuted.**  The model of the code's `reverse` turns the control points
-`(0,1)` of the periodic curve `C06_exObj` into `(1,0)` and leaves the knots as they are, whereas
-the required correspondence (`Obj.reverseSpec`) keeps `(0,1)`; with the flipped coefficients the
-reversed curve at `start+end-t = 2` (from the left) has the value `1`, the old curve at `t = 0`
-(from the right) the value `0`.  The harness replays this instance on the real code. -/
+/-- **"Flip only" (the shape of `reverse` before the fix 4fe14f6) is refuted.**  Flipping alone
+turns the control points `(0,1)` of the periodic curve `C06_exObj` into `(1,0)` and leaves the knots
+as they are, whereas the required correspondence (`Obj.reverseSpec`, and the model of the fixed code
+`Obj.reverse`) keeps `(0,1)`; with the flipped coefficients the reversed curve at `start+end-t = 2`
+(from the left) has the value `1`, the old curve at `t = 0` (from the right) the value `0`.
+The harness replays this instance on the real code. -/
 theorem C06_reverse_periodic_flip_only_refuted :
-    (C06_exObj.reverse 0).cps.data = #[1, 0] ∧ (C06_exObj.reverseSpec 0).cps.data = #[0, 1]
-    ∧ ((C06_exObj.reverse 0).basis 0).knots = #[-1, 0, 1, 2, 3]
+    (C06_exObj.reverseFlipOnly 0).cps.data = #[1, 0] ∧ (C06_exObj.reverseSpec 0).cps.data = #[0, 1]
+    ∧ (C06_exObj.reverse 0).cps.data = #[0, 1]
+    ∧ ((C06_exObj.reverseFlipOnly 0).basis 0).knots = #[-1, 0, 1, 2, 3]
     ∧ wsum .left C06_exPer.reverse.kn 1 3 2 (fun j => (#[(1 : ℚ), 0]).getD j 0) 0 (0 + 2 - 0) = 1
     ∧ wsum .right C06_exPer.kn 1 3 2 (fun j => (#[(0 : ℚ), 1]).getD j 0) 0 0 = 0 := by
-  refine ⟨by decide, by decide, ?_, ?_, ?_⟩
-  · simp [C06_exObj, C06_exPer, Obj.reverse, Obj.basis, Basis.reverse, Basis.start, Basis.stop, Basis.kn]
+  refine ⟨by decide, by decide, by decide, ?_, ?_, ?_⟩
+  · simp [C06_exObj, C06_exPer, Obj.reverseFlipOnly, Obj.basis, Basis.reverse, Basis.start, Basis.stop, Basis.kn]
     norm_num
   · rw [C06_reversed_knots_eq_refl C06_exPer_valid]
     norm_num [wsum, reflKnots, Finset.sum_range_succ, dB, B, ind, Basis.kn, Basis.start, Basis.stop,
@@ -151,37 +156,34 @@ theorem C06_reverse_periodic_flip_only_refuted :
 
 /-! ## reverse — objects -/
 
-/-- **Object level, every direction (periodic or not), as the property requires it.**
-For a well-formed model object and every homogeneous component, `Obj.reverseSpec d` evaluated at
-`start+end-u_d` in direction `d` (side flipped in direction `d`) has the value — and, up to the
-sign `(-1)^{α_d}`, the derivatives — of the old object at `u`. -/
+/-- **The model of the code's `reverse` is the required correspondence**, on every direction
+(periodic or not) and for every object: flipping and rolling by `k+1` re-indexes the control array
+by `j ↦ (n + k - j) mod n`. -/
+theorem C06_reverse_eq_spec (o : Obj K) (d : ℕ) : o.reverse d = o.reverseSpec d :=
+  reverse_eq_reverseSpec o d
+
+/-- **Object level, every direction (periodic or not).**  For a well-formed model object and every
+homogeneous component, `o.reverse d` (the model of the code) evaluated at `start+end-u_d` in
+direction `d` (side flipped in direction `d`) has the value — and, up to the sign `(-1)^{α_d}`, the
+derivatives — of the old object at `u`. -/
 theorem C06_reverse_obj {m : ℕ} {o : Obj K} (hw : WF o m) (d : Fin m) (comp : ℕ) (hc : comp < o.ncomp)
     (s : Fin m → Side) (α : Fin m → ℕ) (u : Fin m → K) :
-    (toTP (o.reverseSpec d) m comp).evalD (Function.update s d (s d).flip) α
+    (toTP (o.reverse d) m comp).evalD (Function.update s d (s d).flip) α
         (Function.update u d ((o.basis d).start + (o.basis d).stop - u d))
       = (-1) ^ (α d) * (toTP o m comp).evalD s α u := by
+  rw [reverse_eq_reverseSpec]
   have hA := toTP_reverseSpec hw d comp hc
   have hpos : (toTP (o.reverseSpec d) m comp).Pos := toTP_pos (wf_reverseSpec hw d).1 comp
   rw [hA.evalD hpos]
   exact TP.evalD_reverse (toTP o m comp) d s α u
 
-/-- **The code's `reverse` (flip only) on a non-periodic direction** is exact; it even produces the
-same model object as `reverseSpec`. -/
-theorem C06_reverse_obj_open {m : ℕ} {o : Obj K} (hw : WF o m) (d : Fin m) (hper : (o.basis d).periodic = -1)
-    (comp : ℕ) (hc : comp < o.ncomp) (s : Fin m → Side) (α : Fin m → ℕ) (u : Fin m → K) :
-    o.reverse d = o.reverseSpec d ∧
-    (toTP (o.reverse d) m comp).evalD (Function.update s d (s d).flip) α
-        (Function.update u d ((o.basis d).start + (o.basis d).stop - u d))
-      = (-1) ^ (α d) * (toTP o m comp).evalD s α u := by
-  have e := reverse_eq_reverseSpec o d hper
-  exact ⟨e, by rw [e]; exact C06_reverse_obj hw d comp hc s α u⟩
-
 /-- **`reverse ∘ reverse` is the identity** (object level): bases and every control-array entry. -/
 theorem C06_reverse_involution {m : ℕ} {o : Obj K} (hw : WF o m) (d : Fin m) (J : Fin m → ℕ) (comp : ℕ)
     (hJ : ∀ k, J k < (o.basis k).numFunctions) (hc : comp < o.ncomp) :
-    (∀ k : Fin m, ((o.reverseSpec d).reverseSpec d).basis k = o.basis k)
-    ∧ getIdx ((o.reverseSpec d).reverseSpec d).cps (midx J comp) = getIdx o.cps (midx J comp) :=
-  reverseSpec_reverseSpec hw d J comp hJ hc
+    (∀ k : Fin m, ((o.reverse d).reverse d).basis k = o.basis k)
+    ∧ getIdx ((o.reverse d).reverse d).cps (midx J comp) = getIdx o.cps (midx J comp) := by
+  rw [reverse_eq_reverseSpec, reverse_eq_reverseSpec]
+  exact reverseSpec_reverseSpec hw d J comp hJ hc
 
 /-! ## swap -/
 
@@ -306,7 +308,7 @@ theorem C06_compositions {m : ℕ} (ops : List (TOp K m)) (P : TP K m) (hP : P.D
   TP.run_spec ops P hP hops
 
 /-- **Closure under arbitrary histories (model objects).**  Running a history on a well-formed model
-object (`reverse` as `reverseSpec`, which on non-periodic directions *is* the code's `reverse`)
+object (`Obj.reverse`, `Obj.swap`, successful `Obj.reparamDir` — the model of the code)
 keeps it well formed, and every homogeneous component of the final object at the composed
 parameter map equals the initial one; its image is the initial image. -/
 theorem C06_compositions_model {m : ℕ} (ops : List (TOp K m)) {o : Obj K} (hw : WF o m)
@@ -401,7 +403,7 @@ theorem C06_check_direction_source (tok : DirTok) (pardim : ℕ) :
     Bool.or_eq_true]
 
 /-- The calling conventions: every valid spelling of a direction leads to the same model
-operation; `swap` on a curve does nothing (and, in the code, returns `None`); `reparam()` without
+operation; `swap` on a curve does nothing and returns the receiver; `reparam()` without
 arguments is `reparam((0,1), …, (0,1))`. -/
 theorem C06_spellings (o : Obj K) (t₁ t₂ : DirTok) (d : ℕ)
     (h₁ : checkDirection t₁ o.pardimB = .ok d) (h₂ : checkDirection t₂ o.pardimB = .ok d) :
@@ -416,6 +418,12 @@ theorem C06_spellings (o : Obj K) (t₁ t₂ : DirTok) (d : ℕ)
   · simp [Obj.reverseTok, h₁]
   · intro a; simp [Obj.reparamDirTok, h₁, h₂]
   · intro t₃; simp [Obj.swapTok, h₁, h₂]
+
+/-- `swap` on a curve is the identity and returns the receiver (for any direction arguments: they
+are not validated on a curve); `reverse` with a valid spelling returns the receiver. -/
+theorem C06_swap_curve (o : Obj K) (h : o.pardimB = 1) (t₁ t₂ : DirTok) :
+    (o.swapTok t₁ t₂).obj = o ∧ (o.swapTok t₁ t₂).err = none ∧ (o.swapTok t₁ t₂).returnsSelf = true := by
+  simp [Obj.swapTok, h]
 
 /-! ## Non-vacuity -/
 
